@@ -217,6 +217,18 @@ def check_direct(case, ctx):
             ctol = 1e-9 * (1 + max(nx, ny))
             _cmp('xcentroid', g('xcentroid'), sh['xcentroid'], 0, ctol)
             _cmp('ycentroid', g('ycentroid'), sh['ycentroid'], 0, ctol)
+            if bkg is not None:
+                # background_centroid: bilinear interpolation of the
+                # background map at the (x, y) centroid
+                xc_, yc_ = sh['xcentroid'], sh['ycentroid']
+                j0 = min(max(int(math.floor(yc_)), 0), ny - 1)
+                i0 = min(max(int(math.floor(xc_)), 0), nx - 1)
+                j1, i1 = min(j0 + 1, ny - 1), min(i0 + 1, nx - 1)
+                fy, fx = yc_ - math.floor(yc_), xc_ - math.floor(xc_)
+                exp_b = ((1 - fy) * ((1 - fx) * bkg[j0, i0] + fx * bkg[j0, i1])
+                         + fy * ((1 - fx) * bkg[j1, i0] + fx * bkg[j1, i1]))
+                _cmp('background_centroid', g('background_centroid'),
+                     float(exp_b), 1e-8, 1e-8)
             amb = sh['flags'] & {'det_sign_ambiguous', 'regularisation_threshold'}
             if amb:
                 ctx.event('shape_ambiguous')
